@@ -125,6 +125,25 @@ pub fn run_case(t: &[u8]) -> String {
         let extra = (0..3).filter(|_| it.next().is_some()).count();
         format!("{}:latch{}", out, extra)
     });
+    ep!("lossy", res(sonic_rs::Deserializer::from_slice(t).utf8_lossy().deserialize::<Value>()));
+    ep!("lossy_stream", {
+        let mut it = sonic_rs::Deserializer::from_slice(t).utf8_lossy().into_stream::<Value>();
+        let mut out = "END".to_string();
+        let mut n = 0;
+        while let Some(x) = it.next() {
+            n += 1;
+            if let Err(e) = x {
+                out = e_str(&e);
+                break;
+            }
+            if n > 100000 {
+                out = "NOEND".into();
+                break;
+            }
+        }
+        let extra = (0..3).filter(|_| it.next().is_some()).count();
+        format!("{}:latch{}", out, extra)
+    });
     ep!("stream_lazy", {
         let mut it = sonic_rs::Deserializer::from_slice(t).into_stream::<LazyValue>();
         let mut out = "END".to_string();
